@@ -6,6 +6,7 @@
 package main
 
 import (
+	"runtime"
 	"context"
 	"fmt"
 	"os"
@@ -298,6 +299,22 @@ func main() {
 					os.Exit(1)
 				}
 				native[r.String()]++
+			}
+			// Goroutines started natively by the last bodies may not have reached
+			// their channel operation yet; one of them waking up after the explorer
+			// has installed a scheduler would act as a thread nobody scheduled.
+			// Wait until the goroutine count has been stable for a while (those
+			// left are blocked for good).
+			vs.WaitNative(300 * time.Millisecond)
+			prev, stable := runtime.NumGoroutine(), 0
+			for i := 0; i < 400 && stable < 10; i++ {
+				time.Sleep(5 * time.Millisecond)
+				runtime.Gosched()
+				if n := runtime.NumGoroutine(); n == prev {
+					stable++
+				} else {
+					prev, stable = n, 0
+				}
 			}
 		}
 		explored := map[string]int{}
